@@ -184,6 +184,19 @@ def run(ctx, rep) -> None:
     rep.rule = ('random histories over 3 objects x 2 indices with scripted results, replayed by TLC through Indexing.tla (handlers that '
                 'run + full index contents after every step); gate scenarios with delayed listings of two indexed kinds; non-trivial = a '
                 'trace with a key collision, a discard (error / mismatch / delete) or a delayed listing')
+    # the readiness gate with the worker limit as a design-level model: handlers only after the initial index, the startup
+    # terminates; the witness configuration (limit below the number of listed objects) deadlocks: the known family F16
+    from vf import tlc
+    from vf.evidence import MachineryFailure
+    for c in ('pos', 'pos3'):
+        r = tlc.run('Gate', f'MC_Gate_{c}.cfg')
+        rep.add_tlc(f'MC_Gate_{c}', r)
+        if not r.ok:
+            rep.violation(f'Gate design check {c}: {r.violated} {r.errors[:1]}', files={'tlc.out': r.out[-100000:]})
+    r = tlc.run('Gate', 'MC_Gate_f16.cfg')
+    if r.ok:
+        raise MachineryFailure('witness configuration MC_Gate_f16 (limit 2, 3 objects) did not deadlock')
+    rep.extra['witness_config'] = 'MC_Gate_f16: with a worker limit below the number of listed objects AllHandled is violated (F16)'
     scs = gen_scenarios(ctx.seed, 150 if ctx.quick else 4000) + gate_scenarios()
     with ProcessPoolExecutor(16) as ex:
         traces = list(ex.map(run_scenario, scs, chunksize=4))
